@@ -42,6 +42,18 @@ check("C03", "model_checking",
       "vacuity witness (Det ∧ Member satisfiable) per group.",
       E3_NOTE, E3_TECH, "E3", "DESIGN.md §3 C03")
 
+E2_TECH = "bounded symbolic execution of the function's MIR (concrete shapes, symbolic contents) with z3 deciding every path's postcondition; witnesses replayed natively"
+E2_NOTE = ("Bounded by the stated input sizes. Trusts the std contract models in lib/mir_models.py (validated against the "
+           "native build on concrete inputs every run) and the MIR text of the nightly toolchain as a faithful rendering "
+           "of the source semantics.")
+
+check("C19", "other",
+      "Partial: the two crash-prone computations of the pretty renderer — trailing-whitespace split index is a char "
+      "boundary and exactly the start of the trailing whitespace (all UTF-8 strings <= 6/8 bytes; E2 + a Kani harness on "
+      "the compiled function), and line-number padding cannot underflow (all usize). The other renderers and 'every "
+      "difference is shown' are not claimed.",
+      E2_NOTE, E2_TECH + "; Kani/CBMC harness as second engine", "E2+E1", "DESIGN.md §3 C19")
+
 NA_LIST = [
     ("C07", "Cram parser: every clause is about string contents inside one regex-calling function; out of reach of Kani (heap/regex) and of control-flow-only MIR execution."),
     ("C12", "Shell-state carry-over is implemented by a bash script; no encoding of bash semantics is available here."),
@@ -62,12 +74,17 @@ def main():
             "guard": "scrut_verif",
             "enable": "RUSTFLAGS='--cfg scrut_verif' (set by lib/common.py for the native crate and the Kani harness crate)",
             "baseline_off_cmd": "cd /repo && cargo nextest run --workspace --no-fail-fast --tool-config-file pb:/w/lib/nextest.toml --profile pb --test-threads 8 --offline || cargo test --workspace --no-fail-fast --offline",
-            "source_commits": [],
+            "source_commits": ["c78dcdb"],
             "add_only": True,
         },
         "engines": [
             {"name": "E3", "path": "native/src/dse.rs + lib/e3.py", "serves_properties": ["C01", "C02", "C03"],
              "kind_free_text": "dynamic symbolic execution of compiled validate/diff with a symbolic match relation; z3 decides per quantifier vector"},
+            {"name": "E2", "path": "lib/mir_parse.py + lib/mir_exec.py + lib/mir_models.py + lib/e2.py",
+             "serves_properties": sorted(k for k, v in CHECKS.items() if "E2" in v["engine"]),
+             "kind_free_text": "path-wise bounded symbolic executor for rustc MIR text (nightly -Zunpretty=mir) with z3; std functions answered by contract models"},
+            {"name": "E1", "path": "kani/ + lib/kani.py", "serves_properties": sorted(k for k, v in CHECKS.items() if "E1" in v["engine"]),
+             "kind_free_text": "Kani proof harnesses (CBMC + cadical) over the real crate for allocation-free leaf functions"},
         ],
         "checks": [CHECKS[k] for k in sorted(CHECKS)],
         "not_applicable": sorted(na, key=lambda x: x["property_id"]),
